@@ -1,3 +1,353 @@
 import RsomeV.M.Partition
+import RsomeV.L.PartitionLemmas
+
+/-! C13: the event-wise adaptation bookkeeping keeps a partition of the scenarios, the final
+partition consists of exactly the declared events, re-declarations are rejected, `comb_set` is the
+common refinement, `rule_var` shares columns exactly inside an event, and the affine-adaptation
+mask is what `affadapt` was told.  Proof details are in `RsomeV/L/PartitionLemmas.lean`. -/
+
 namespace RsomeV.C13
+open RsomeV.Partition
+
+/-- `es` partitions the scenarios `0..S-1`: every scenario lies in exactly one event -/
+def IsPartition (es : Events) (S : Nat) : Prop := es.flatten.Perm (List.range S)
+
+/-- run a sequence of `adapt` calls from the initial state, stopping at the first error -/
+def run (S : Nat) (calls : List (List Nat)) : Except Err EvState :=
+  calls.foldl (fun acc ev => match acc with
+    | .error e => .error e
+    | .ok st => evtadapt st ev) (.ok (EvState.init S))
+
+/-- `run` is the fold of the helper `runStep` of the lemma file -/
+theorem run_eq (S : Nat) (calls : List (List Nat)) :
+    run S calls = calls.foldl runStep (.ok (EvState.init S)) := rfl
+
+/-- scenarios `s` and `t` lie in a common event of `es` -/
+def sameEvent (es : Events) (s t : Nat) : Prop := ∃ e ∈ es, s ∈ e ∧ t ∈ e
+
+instance (es : Events) (S : Nat) : Decidable (IsPartition es S) := by
+  unfold IsPartition; infer_instance
+
+example : IsPartition [[2], [0, 1]] 3 := by decide
+example : run 4 [[0, 1], [3]] = .ok ⟨[[2], [0, 1], [3]], true⟩ := rfl
+example : run 3 [[0, 1], [1]] = .error .keyError := rfl
+example : sameEvent [[2], [0, 1]] 0 1 := ⟨[0, 1], by decide, by decide, by decide⟩
+
+theorem IsPartition.nodup {es : Events} {S : Nat} (h : IsPartition es S) : es.flatten.Nodup :=
+  (List.Perm.nodup_iff h).2 List.nodup_range
+
+theorem IsPartition.mem_iff {es : Events} {S : Nat} (h : IsPartition es S) {s : Nat} :
+    s ∈ es.flatten ↔ s < S := by
+  rw [List.Perm.mem_iff h, List.mem_range]
+
+/-! ## 1. one `adapt` call keeps a partition -/
+
+/-- **C13.1** A successful `evtadapt` call turns a partition of the scenarios `0..S-1` into a
+partition of `0..S-1` (nothing is lost or duplicated, whatever the state's `rest` flag is). -/
+theorem evtadapt_partition {st st' : EvState} {ev : List Nat} {S : Nat}
+    (hp : IsPartition st.events S) (h : evtadapt st ev = .ok st') : IsPartition st'.events S := by
+  unfold IsPartition at *
+  unfold evtadapt at h
+  split at h
+  · cases h
+  · rename_i hd tl hev
+    rw [hev] at hp
+    split at h
+    · cases h
+    · split at h
+      · cases h
+      · rename_i hd' hrm
+        have hperm := removeAll_perm hrm
+        have key : (hd' ++ tl.flatten ++ ev).Perm (List.range S) := by
+          refine List.Perm.trans ?_ hp
+          simp only [List.flatten_cons]
+          refine List.Perm.trans ?_ (List.Perm.append_right _ hperm.symm)
+          rw [List.append_assoc, List.append_assoc]
+          exact List.Perm.append_left _ List.perm_append_comm
+        split at h
+        · rename_i hemp
+          have : hd' = [] := by simpa using hemp
+          subst this
+          cases h
+          simpa using key
+        · cases h
+          simpa using key
+
+example : evtadapt (EvState.init 3) [0, 1] = .ok ⟨[[2], [0, 1]], true⟩ := rfl
+example : IsPartition [[2], [0, 1]] 3 :=
+  evtadapt_partition (st := EvState.init 3) (ev := [0, 1]) (by decide) rfl
+
+/-! ## 2. the final partition is exactly the declared events -/
+
+/-- **C13.2** One value per *declared* event, whatever the order of the calls.  If every call is
+non-empty and the run succeeds, then no scenario was declared twice, every declared scenario is a
+known one (`< S`), and the final event list consists of exactly the declared events in call order,
+preceded by the event of the never-declared scenarios (in increasing order) if there are any.
+
+Hypothesis added to the task's statement: `0 < S ∨ calls ≠ []`.  Counterexample without it:
+`S = 0`, `calls = []` gives `run 0 [] = .ok ⟨[[]], true⟩`, i.e. events `[[]]`, not `[]`.
+(With `S = 0` every non-empty call fails, so this is the only excluded case.)
+The conclusion also records the final `rest` flag. -/
+theorem run_events {S : Nat} {calls : List (List Nat)} {st : EvState}
+    (hS : 0 < S ∨ calls ≠ []) (hne : ∀ c ∈ calls, c ≠ []) (h : run S calls = .ok st) :
+    calls.flatten.Nodup ∧ (∀ s ∈ calls.flatten, s < S) ∧
+    st.events = (let r := (List.range S).filter (fun s => !(calls.flatten.contains s))
+                 if r.isEmpty then calls else r :: calls) ∧
+    st.rest = !((List.range S).filter (fun s => !(calls.flatten.contains s))).isEmpty := by
+  rw [run_eq] at h
+  have inv : RunInv S calls st := by simpa using runInv_foldl (runInv_init S) hne h
+  refine ⟨inv.nodup, inv.lt, ?_⟩
+  have hshape := inv.shape
+  show st.events = (if (remainder S calls).isEmpty then calls else remainder S calls :: calls) ∧
+    st.rest = !(remainder S calls).isEmpty
+  cases hr : st.rest with
+  | false =>
+    rw [hr] at hshape
+    obtain ⟨h1, h2, _⟩ := hshape
+    simp [h1, h2]
+  | true =>
+    rw [hr] at hshape
+    simp only [if_true] at hshape
+    obtain ⟨h1, h2⟩ := hshape
+    have hrne : remainder S calls ≠ [] := by
+      rcases h2 with h2 | h2
+      · subst h2
+        rcases hS with hS | hS
+        · intro h0
+          have : (0 : Nat) ∈ remainder S [] := mem_remainder.2 ⟨hS, by simp⟩
+          rw [h0] at this
+          cases this
+        · exact absurd rfl hS
+      · exact h2
+    have : (remainder S calls).isEmpty = false := by simpa using hrne
+    simp [h1, this]
+
+example : run 5 [[3, 1], [4]] = .ok ⟨[[0, 2], [3, 1], [4]], true⟩ := rfl
+example : [[3, 1], [4]].flatten.Nodup :=
+  (run_events (S := 5) (calls := [[3, 1], [4]]) (.inl (by decide)) (by decide) rfl).1
+example : run 3 [[2], [0, 1]] = .ok ⟨[[2], [0, 1]], false⟩ := rfl
+/-- the excluded corner case -/
+example : run 0 [] = .ok ⟨[[]], true⟩ := rfl
+
+/-! ## 3. re-declaration is rejected -/
+
+/-- **C13.3** After any successful run of non-empty calls, a further call that names an already
+declared scenario, an unknown scenario (`≥ S`), or the same scenario twice raises `KeyError`. -/
+theorem evtadapt_rejects_redeclared {S : Nat} {calls : List (List Nat)} {st : EvState}
+    {ev : List Nat} (hne : ∀ c ∈ calls, c ≠ []) (h : run S calls = .ok st)
+    (hbad : (∃ s ∈ ev, s ∈ calls.flatten ∨ S ≤ s) ∨ ¬ ev.Nodup) :
+    evtadapt st ev = .error .keyError := by
+  rw [run_eq] at h
+  have inv : RunInv S calls st := by simpa using runInv_foldl (runInv_init S) hne h
+  exact runInv_rejects inv hbad
+
+example : evtadapt ⟨[[2], [0, 1]], true⟩ [2, 1] = .error .keyError :=
+  evtadapt_rejects_redeclared (S := 3) (calls := [[0, 1]]) (by decide) rfl
+    (.inl ⟨1, by decide, .inl (by decide)⟩)
+example : evtadapt ⟨[[2], [0, 1]], true⟩ [2, 2] = .error .keyError := rfl
+example : evtadapt ⟨[[2], [0, 1]], true⟩ [3] = .error .keyError := rfl
+example : evtadapt ⟨[[2], [0, 1]], false⟩ [2] = .error .keyError := rfl
+
+/-! ## 4. `comb_set` is the common refinement -/
+
+/-- `combSet` is the grouping fold with the pair of event indices as key -/
+theorem combSet_eq (p q : Events) :
+    combSet p q = ((List.range (p.map List.length).sum).foldl
+      (groupStep fun s => (eventOf p s, eventOf q s)) []).map (·.2) := rfl
+
+/-- **C13.4** For two partitions of the same scenarios `0..n-1`, `combSet p q` is again a partition
+and two scenarios share an event of it iff they share an event of `p` and an event of `q`
+(coarsest common refinement). -/
+theorem combSet_refines {p q : Events} {n : Nat} (hp : IsPartition p n) (hq : IsPartition q n) :
+    IsPartition (combSet p q) n ∧
+    ∀ s t, s < n → t < n →
+      (sameEvent (combSet p q) s t ↔ sameEvent p s t ∧ sameEvent q s t) := by
+  have hn : (p.map List.length).sum = n := by
+    rw [← List.length_flatten, List.Perm.length_eq hp, List.length_range]
+  have inv : GInv (fun s => (eventOf p s, eventOf q s)) (List.range n)
+      ((List.range n).foldl (groupStep fun s => (eventOf p s, eventOf q s)) []) := by
+    simpa using gInv_foldl (l := List.range n) (gInv_nil fun s => (eventOf p s, eventOf q s))
+  rw [combSet_eq, hn]
+  refine ⟨inv.perm, ?_⟩
+  intro s t hs ht
+  unfold sameEvent
+  rw [gInv_same inv (List.mem_range.2 hs) (List.mem_range.2 ht), Prod.mk.injEq,
+    eventOf_eq_iff_same hp.nodup (hp.mem_iff.2 hs) (hp.mem_iff.2 ht),
+    eventOf_eq_iff_same hq.nodup (hq.mem_iff.2 hs) (hq.mem_iff.2 ht)]
+
+example : combSet [[2], [0, 1, 3]] [[0, 2], [1], [3]] = [[0], [1], [2], [3]] := by decide
+example : IsPartition (combSet [[2], [0, 1, 3]] [[0, 2], [1], [3]]) 4 :=
+  (combSet_refines (p := [[2], [0, 1, 3]]) (q := [[0, 2], [1], [3]]) (by decide) (by decide)).1
+example : combSet [[0, 1], [2, 3]] [[3], [0, 1, 2]] = [[0, 1], [2], [3]] := by decide
+
+/-! ## 5. `rule_var`: columns are shared exactly inside an event -/
+
+/-- **C13.5a** Decision `k` (non-empty array, events partition `0..S-1`) uses the same columns of
+`var_const` in scenarios `s` and `t` iff `s` and `t` lie in the same declared event. -/
+theorem rule_var_shares {ds : List Dec} {k S s t : Nat} (hk : k < ds.length)
+    (hp : IsPartition ds[k].events S) (hsz : 0 < ds[k].size) (hs : s < S) (ht : t < S) :
+    constCols ds k s = constCols ds k t ↔ sameEvent ds[k].events s t := by
+  unfold sameEvent
+  rw [← eventOf_getD_eq_iff_same hp.nodup (hp.mem_iff.2 hs) (hp.mem_iff.2 ht)]
+  unfold constCols
+  rw [List.getElem?_eq_getElem hk]
+  simp only
+  constructor
+  · intro h
+    have h0 := List.map_inj_left.1 h 0 (List.mem_range.2 hsz)
+    have h1 : ds[k].size * (eventOf ds[k].events s).getD 0
+        = ds[k].size * (eventOf ds[k].events t).getD 0 := by omega
+    exact Nat.eq_of_mul_eq_mul_left hsz h1
+  · intro h
+    rw [h]
+
+/-- three decisions over 3 scenarios used in the examples below -/
+def exDs : List Dec := [⟨2, [[2], [0, 1]]⟩, ⟨1, [[0, 1, 2]]⟩, ⟨3, [[0], [1, 2]]⟩]
+
+example : constCols exDs 0 0 = [2, 3] ∧ constCols exDs 0 1 = [2, 3] ∧ constCols exDs 0 2 = [0, 1] := by
+  decide
+example : constCols exDs 0 0 = constCols exDs 0 1 :=
+  (rule_var_shares (ds := exDs) (k := 0) (S := 3) (by decide) (by decide) (by decide) (by decide)
+    (by decide)).2 ⟨[0, 1], by decide, by decide, by decide⟩
+
+/-- **C13.5b** Different decisions never share a column, whatever the scenarios. -/
+theorem rule_var_disjoint {ds : List Dec} {k k' S s t : Nat} (hk : k < ds.length)
+    (hk' : k' < ds.length) (hkk : k ≠ k') (hp : IsPartition ds[k].events S)
+    (hp' : IsPartition ds[k'].events S) (hs : s < S) (ht : t < S) :
+    ∀ x, x ∈ constCols ds k s → x ∉ constCols ds k' t := by
+  intro x hx hx'
+  have some_s : (eventOf ds[k].events s).isSome := by
+    obtain ⟨i, _, _, h⟩ := eventOf_of_mem_flatten hp.nodup (hp.mem_iff.2 hs)
+    simp [h]
+  have some_t : (eventOf ds[k'].events t).isSome := by
+    obtain ⟨i, _, _, h⟩ := eventOf_of_mem_flatten hp'.nodup (hp'.mem_iff.2 ht)
+    simp [h]
+  have b := constCols_bounds hk some_s hx
+  have b' := constCols_bounds hk' some_t hx'
+  rcases Nat.lt_or_gt_of_ne hkk with hlt | hlt
+  · have := roFirst_mono ds (show _ + 1 ≤ _ from hlt)
+    omega
+  · have := roFirst_mono ds (show _ + 1 ≤ _ from hlt)
+    omega
+
+example : constCols exDs 2 1 = [8, 9, 10] ∧ scenCols exDs 1 = [2, 3, 4, 8, 9, 10] := by decide
+example : ∀ x, x ∈ constCols exDs 0 1 → x ∉ constCols exDs 2 0 :=
+  rule_var_disjoint (ds := exDs) (S := 3) (by decide) (by decide) (by decide) (by decide)
+    (by decide) (by decide) (by decide)
+
+/-! ## 6. the dependency mask is respected -/
+
+/-- **C13.6a** For a rectangular mask, dependency `(i, j)` has a coefficient column iff it was
+declared in the mask.  (Holds for every `i`; for `i ≥ m.length` both sides are false.) -/
+theorem mask_respected {m : Mask} {nrand i j : Nat} (hrect : ∀ row ∈ m, row.length = nrand)
+    (hj : j < nrand) :
+    (coefRank m nrand i j).isSome ↔ (m.getD i []).getD j false = true := by
+  unfold coefRank
+  rw [List.isSome_idxOf?, mem_nzRows, flatten_getD_rect hrect i hj]
+
+/-- a `2 × 3` mask used in the examples below -/
+def exMask : Mask := [[false, true, false], [true, false, true]]
+
+example : nzRows exMask = [1, 3, 5] ∧ coefRank exMask 3 1 2 = some 2 ∧ coefRank exMask 3 1 1 = none := by
+  decide
+example : (coefRank exMask 3 1 2).isSome :=
+  (mask_respected (m := exMask) (nrand := 3) (by decide) (by decide)).2 rfl
+
+/-- **C13.6b** `coefRank` is injective on declared pairs: two pairs with the same coefficient
+column are the same pair. -/
+theorem coefRank_injective {m : Mask} {nrand i j i' j' r : Nat} (hj : j < nrand)
+    (hj' : j' < nrand) (h : coefRank m nrand i j = some r) (h' : coefRank m nrand i' j' = some r) :
+    i = i' ∧ j = j' := by
+  unfold coefRank at h h'
+  obtain ⟨hr, e, _⟩ := List.idxOf?_eq_some_iff.1 h
+  obtain ⟨_, e', _⟩ := List.idxOf?_eq_some_iff.1 h'
+  exact mul_add_inj hj hj' (e.symm.trans e')
+
+example : coefRank exMask 3 0 1 = some 0 ∧ coefRank exMask 3 1 0 = some 1 := by decide
+
+/-- **C13.6c** the coefficient columns are the ranks `0 .. numDep-1` -/
+theorem coefRank_lt {m : Mask} {nrand i j r : Nat} (h : coefRank m nrand i j = some r) :
+    r < (nzRows m).length := by
+  unfold coefRank at h
+  exact (List.idxOf?_eq_some_iff.1 h).1
+
+example : (nzRows exMask).length = 3 ∧ coefRank exMask 3 1 2 = some 2 := by decide
+
+/-! ## 7. `affadapt` rejects re-declaration and sets exactly the requested entries -/
+
+/-- **C13.7a** A successful `affadapt` means: the decision is not integer, none of the requested
+pairs was set before, the shape of the mask is unchanged, and every (in-range) entry of the new
+mask is the old entry OR-ed with membership of its position in `decIdx × randIdx`. -/
+theorem affadapt_ok {isInt : Bool} {m m' : Mask} {di ri : List Nat}
+    (h : affadapt isInt m di ri = .ok m') :
+    isInt = false ∧
+    (∀ i ∈ di, ∀ j ∈ ri, (m.getD i []).getD j false = false) ∧
+    m'.length = m.length ∧ (∀ i, (m'.getD i []).length = (m.getD i []).length) ∧
+    ∀ i j, i < m.length → j < (m.getD i []).length →
+      (m'.getD i []).getD j false = ((m.getD i []).getD j false || (di.contains i && ri.contains j)) := by
+  rw [affadapt_eq] at h
+  split at h
+  · cases h
+  · rename_i hint
+    split at h
+    · cases h
+    · rename_i hno
+      cases h
+      refine ⟨by simpa using hint, ?_, setMask_length m di ri, setMask_row_length m di ri,
+        fun i j hi hj => setMask_entry m di ri hi hj⟩
+      intro i hi j hj
+      cases hv : (m.getD i []).getD j false with
+      | false => rfl
+      | true => exact absurd ⟨i, hi, j, hj, hv⟩ hno
+
+example : affadapt false [[false, true, false], [false, false, false]] [0, 1] [0, 2]
+    = .ok [[true, true, true], [true, false, true]] := rfl
+
+/-- **C13.7** the same for a rectangular mask, entries addressed by `i < m.length`, `j < nrand` -/
+theorem affadapt_rejects_redeclared {isInt : Bool} {m m' : Mask} {di ri : List Nat} {nrand : Nat}
+    (hrect : ∀ row ∈ m, row.length = nrand) (h : affadapt isInt m di ri = .ok m') :
+    isInt = false ∧
+    (∀ i ∈ di, ∀ j ∈ ri, (m.getD i []).getD j false = false) ∧
+    m'.length = m.length ∧ (∀ row ∈ m', row.length = nrand) ∧
+    ∀ i j, i < m.length → j < nrand →
+      (m'.getD i []).getD j false = ((m.getD i []).getD j false || (di.contains i && ri.contains j)) := by
+  obtain ⟨h1, h2, h3, h4, h5⟩ := affadapt_ok h
+  have hrow : ∀ i, i < m.length → (m.getD i []).length = nrand := by
+    intro i hi
+    rw [List.getD_eq_getElem?_getD, List.getElem?_eq_getElem hi]
+    exact hrect _ (List.getElem_mem hi)
+  refine ⟨h1, h2, h3, ?_, fun i j hi hj => h5 i j hi (by rw [hrow i hi]; exact hj)⟩
+  intro row hrow'
+  obtain ⟨i, hi, rfl⟩ := List.getElem_of_mem hrow'
+  have := h4 i
+  rw [List.getD_eq_getElem?_getD, List.getElem?_eq_getElem hi] at this
+  simp only [Option.getD_some] at this
+  rw [this]
+  exact hrow i (h3 ▸ hi)
+
+example : ∀ row ∈ [[true, true, true], [true, false, true]], row.length = 3 :=
+  (affadapt_rejects_redeclared (isInt := false) (m := [[false, true, false], [false, false, false]])
+    (di := [0, 1]) (ri := [0, 2]) (nrand := 3) (by decide) rfl).2.2.2.1
+
+/-- **C13.7b** Re-declaring an already set pair is a `RuntimeError` (continuous decision). -/
+theorem affadapt_redeclared_error {m : Mask} {di ri : List Nat} {i j : Nat} (hi : i ∈ di)
+    (hj : j ∈ ri) (hset : (m.getD i []).getD j false = true) :
+    affadapt false m di ri = .error .runtimeError := by
+  rw [affadapt_eq]
+  simp only [Bool.false_eq_true, if_false]
+  rw [if_pos ⟨i, hi, j, hj, hset⟩]
+
+example : affadapt false [[false, true, false], [false, false, false]] [0] [1]
+    = .error .runtimeError :=
+  affadapt_redeclared_error (i := 0) (j := 1) (by decide) (by decide) rfl
+
+/-- **C13.7c** Affine adaptation of an integer decision is a `ValueError`. -/
+theorem affadapt_int_error (m : Mask) (di ri : List Nat) :
+    affadapt true m di ri = .error .valueError := by
+  rw [affadapt_eq]
+  simp
+
+example : affadapt true [[false, true, false], [false, false, false]] [1] [1]
+    = .error .valueError := rfl
+
 end RsomeV.C13
